@@ -487,6 +487,10 @@ func checkBoxTx(txdata []byte, chainID uint16, txTime, nowTime uint64, isBlockTx
 	}
 	// 遍历子交易并验证
 	for _, subTx := range box.SubTxList {
+		// a JSON null in the sub transaction list is decoded to a nil pointer
+		if subTx == nil {
+			return ErrNilSubTx
+		}
 		// 确保tx的expiration time小于或者等于箱子中的所有子交易的expiration time
 		if txTime > subTx.Expiration() {
 			log.Errorf("Sub transaction's expiration time is less than box transaction. boxTx time: %d, subTx time: %d", txTime, subTx.Expiration())
